@@ -730,6 +730,8 @@ struct TextEval {
     alg: Algorithm,
     /// `TextDiff::ratio()` as f32 bits
     ratio_bits: u32,
+    /// `TextDiff::grouped_ops(n) == group_diff_ops(ops, n)` for n = 0..=3
+    grouped_consistent: bool,
     probes: u64,
     old_toks: Vec<Vec<u8>>,
     new_toks: Vec<Vec<u8>>,
@@ -748,13 +750,14 @@ fn text_eval<T: DiffableStr + ?Sized>(c: &TextCfg, how: DlHow, old: &T, new: &T)
         let per: Vec<Chg> = diff.ops().iter().flat_map(|op| diff.iter_changes(op)).map(conv_change).collect();
         let ot: Vec<Vec<u8>> = diff.old_slices().iter().map(|t| t.as_bytes().to_vec()).collect();
         let nt: Vec<Vec<u8>> = diff.new_slices().iter().map(|t| t.as_bytes().to_vec()).collect();
-        (all, per, ot, nt, diff.ops().to_vec(), diff.newline_terminated(), diff.algorithm(), diff.ratio().to_bits())
+        (all, per, ot, nt, diff.ops().to_vec(), diff.newline_terminated(), diff.algorithm(), diff.ratio().to_bits(),
+         (0..=3).all(|n| diff.grouped_ops(n) == similar::group_diff_ops(diff.ops().to_vec(), n)))
     }))
     .ok()?;
     let (direct, _, _, direct_probes) =
         obs::with_world(c.dl, false, |inst| similar::capture_diff_slices_deadline(c.alg, diff.old_slices(), diff.new_slices(), inst));
-    let (all_changes, op_changes, old_toks, new_toks, ops, nlt, alg, ratio_bits) = rest;
-    Some(TextEval { ops, nlt, alg, ratio_bits, probes, old_toks, new_toks, all_changes, op_changes, direct: direct?, direct_probes })
+    let (all_changes, op_changes, old_toks, new_toks, ops, nlt, alg, ratio_bits, grouped_consistent) = rest;
+    Some(TextEval { ops, nlt, alg, ratio_bits, grouped_consistent, probes, old_toks, new_toks, all_changes, op_changes, direct: direct?, direct_probes })
 }
 
 fn text_eval_mode(c: &TextCfg, how: DlHow, mode: Mode, old: &[u8], new: &[u8]) -> Option<TextEval> {
@@ -885,6 +888,9 @@ fn check_text(ctx: &mut Ctx, req: &str, c: &TextCfg, old: &[u8], new: &[u8], ev:
                 ctx.violation("C02", req, e);
             }
         }
+    }
+    if !ev.grouped_consistent {
+        ctx.violation("C12", req, "TextDiff::grouped_ops(n) differs from group_diff_ops(ops, n)".to_string());
     }
     // C14
     if ev.alg != c.alg {
@@ -2422,6 +2428,67 @@ pub fn suite_close(ctx: &mut Ctx) {
         let refs: Vec<&str> = cands.iter().map(|s| s.as_str()).collect();
         let cutoff = if i % 3 == 2 { char_ratio(&word, refs[rng.below(refs.len())]) } else { cuts[rng.below(cuts.len())] };
         ctx.count("close.random_cases");
+        close_case(ctx, &word, &refs, rng.below(5), cutoff);
+    }
+    // sub- and supersequences of longer words, cutoff exactly the ratio of one of them (every pair of lengths
+    // up to 24 x 24 appears), and words over an alphabet with 1-, 2-, 3- and 4-byte characters
+    const ALPHA3: [char; 6] = ['a', 'b', 'é', '\u{20ac}', '\u{1f600}', '\u{1f601}'];
+    let nsub = match ctx.tier {
+        Tier::Quick => 1u64,
+        Tier::Thorough => 6,
+    };
+    for la in 1..=24usize {
+        for lb in 0..=la {
+            for rep in 0..nsub {
+                if !ctx.take() {
+                    continue;
+                }
+                let mut rng = case_rng(ctx, 0xc1053 + (la * 32 + lb) as u64, rep);
+                let alpha: &[char] = if rep % 2 == 0 { &ALPHA2 } else { &ALPHA3 };
+                let long: Vec<char> = (0..la).map(|_| alpha[rng.below(alpha.len())]).collect();
+                // a subsequence of length lb
+                let mut keep: Vec<usize> = (0..la).collect();
+                while keep.len() > lb {
+                    let i = rng.below(keep.len());
+                    keep.remove(i);
+                }
+                let short: String = keep.iter().map(|&i| long[i]).collect();
+                let long: String = long.into_iter().collect();
+                let (word, cand) = if rng.below(2) == 0 { (long.clone(), short.clone()) } else { (short.clone(), long.clone()) };
+                let other = mutate(&mut rng, &cand, alpha);
+                let other2 = mutate(&mut rng, &word, alpha);
+                let refs: Vec<&str> = vec![other.as_str(), cand.as_str(), other2.as_str()];
+                let cutoff = char_ratio(&word, &cand);
+                ctx.count("close.subsequence_cases");
+                close_case(ctx, &word, &refs, 1 + rng.below(3), cutoff);
+            }
+        }
+    }
+    for i in 0..nrand / 4 {
+        if !ctx.take() {
+            continue;
+        }
+        let mut rng = case_rng(ctx, 0xc1054, i);
+        let word: String = (0..rng.range(1, 12)).map(|_| ALPHA3[rng.below(6)]).collect();
+        let k = rng.range(2, 5);
+        let mut cands: Vec<String> = vec![];
+        for _ in 0..k {
+            let c = match rng.below(6) {
+                0 => (0..rng.range(0, 12)).map(|_| ALPHA3[rng.below(6)]).collect(),
+                1 => (0..rng.range(1, 12)).map(|_| ALPHA3[4 + rng.below(2)]).collect(),
+                _ => {
+                    let mut w = word.clone();
+                    for _ in 0..rng.range(1, 3) {
+                        w = mutate(&mut rng, &w, &ALPHA3);
+                    }
+                    w
+                }
+            };
+            cands.push(c);
+        }
+        let refs: Vec<&str> = cands.iter().map(|s| s.as_str()).collect();
+        let cutoff = if i % 3 == 2 { char_ratio(&word, refs[rng.below(refs.len())]) } else { cuts[rng.below(cuts.len())] };
+        ctx.count("close.astral_cases");
         close_case(ctx, &word, &refs, rng.below(5), cutoff);
     }
     // tiny ratios (thorough only): two candidates whose ratios differ below 2^-9
